@@ -486,7 +486,14 @@ impl<'a> ExprGen<'a> {
         } else {
             self.r.pick(&self.extra.unary).clone()
         };
-        match self.r.below(8) {
+        match self.r.below(12) {
+            // guard idiom: the left operand of `&&` screens out the elements on which the
+            // right one would fail (added after seeded change c13r7_filter_selectivity: a
+            // handle that has seen enough elements evaluates the operands in another order)
+            8 => format!("xs[?type(k) == 'number' && {}(k) >= `{}`].id", f, self.r.below(3)),
+            9 => format!("xs[?type(k) == 'number' && abs(k) > `{}`] | length(@)", self.r.below(3)),
+            10 => format!("ys[?type(@) == 'number' && {}(@) > `1`] | length(@)", f),
+            11 => "xs[?!(type(k) != 'number') && abs(k) > `1` && id >= `0`].id".to_string(),
             0 => format!("map(&abs({}(@)), xs)", f),
             1 => format!("sort_by(xs, &{}(k))", f),
             2 => format!("xs[?{}(k) > `1`].id", f),
